@@ -850,7 +850,7 @@ def faults_run(v, pid, plan):
         r = core.cached_tlc(name, "Faults", FAULTS_CFG % (cross, selfsub, att, d), workers=1, timeout=600)
         v.tlc(name, r)
         scen = core.behaviours(r.lines)
-        results = core.run_sharded(["faults"], scen, timeout=2400, died_is_result=True)
+        results = core.run_sharded(["faults", "-own", pid], scen, timeout=2400, died_is_result=True)
         died = [x for x in results if x.get("died")]
         res = core.merge([x for x in results if not x.get("died")])
         for x in died:
@@ -904,7 +904,8 @@ def c16(tier):
 def c05(tier):
     v = Verdict("C05", tier, level="fault_enumeration")
     thorough = tier == "thorough"
-    faults_run(v, "C05", [("FALSE", "FALSE", "TRUE", 2 if not thorough else 3), ("TRUE", "FALSE", "TRUE", 2 if not thorough else 3)])
+    faults_run(v, "C05", [("FALSE", "FALSE", "TRUE", 2 if not thorough else 3), ("TRUE", "FALSE", "TRUE", 2 if not thorough else 3),
+                          ("FALSE", "FALSE", "FALSE", 3 if not thorough else 4)])   # without attacker: sudden disconnects under load, bystanders must stay served
     # the gated race of a delivery with the teardown of its target (yield point wm.checked)
     p = core.run_harness(["race", "-n", "10" if not thorough else "100"], timeout=600)
     if p.returncode != 0:
@@ -958,7 +959,14 @@ def fanin_validate(v, pid, tier):
         tf = os.path.join(tmp, "trace.ndjson")
         p = core.run_harness(["fanin", "-seed", str(core.seed()), "-runs", str(runs), "-msgs", str(msgs), "-out", tf] + extra_args, timeout=1800)
         if p.returncode != 0:
-            raise Infra("fanin recorder failed: %s" % p.stderr[-2000:])
+            err = p.stderr or ""
+            if ("panic:" in err or "fatal error:" in err) and "go-mqtt/" in err:
+                # the broker runs inside the recorder: it died under concurrent use
+                lines = [l for l in err.splitlines() if l.strip()]
+                v.mismatch({"what": "the broker crashed during a recorded concurrent run: %s" % " | ".join(lines[:2] + [l.strip() for l in lines if "go-mqtt/" in l][:3])[:500],
+                            "replay": {"seed": core.seed(), "runs": runs, "msgs": msgs}})
+                return False
+            raise Infra("fanin recorder failed: %s" % err[-2000:])
         res = json.loads(p.stdout.strip().splitlines()[-1])
         if res.get("counts", {}).get("infra"):
             raise Infra("fanin recorder: %s" % res.get("notes")[:2])
